@@ -201,6 +201,8 @@ class Engine:
         self.inline = inline or set()
         self.timeout_ms = timeout_ms
         self.solver = z3.Solver()
+        self.scope_marks = []       # (number of facts at push time, scoped constraints) per open solver scope
+        self._solver_broken = False
         self.solver.set("timeout", FEAS_TIMEOUT_MS)
         self.facts = []
         self.fact_small = []
@@ -276,13 +278,50 @@ class Engine:
             self.qlog.append(r)
             return {"sat": z3.sat, "unsat": z3.unsat}.get(r, z3.unknown)
         t0 = time.time()
-        r = self.solver.check(*extra)
+        try:
+            r = self.solver.check(*extra)
+        except z3.Z3Exception as e:
+            # an internal solver failure (seen: "Overflow encountered when expanding vector" in the sequence solver)
+            # decides nothing: the incremental solver is rebuilt from the facts and the query counts as unknown
+            if "canceled" in str(e) or "interrupt" in str(e).lower():
+                raise
+            self.rebuild_solver()
+            r = z3.unknown
         dt = time.time() - t0
         self.solver_seconds += dt
         if dt > 0.3 and _TRACE:
             print("SLOW feasibility check %.1fs -> %s: %s" % (dt, r, str(extra)[:300].replace("\n", " ")))
         self.qlog.append("sat" if r == z3.sat else ("unsat" if r == z3.unsat else "unknown"))
         return r
+
+    def rebuild_solver(self):
+        s = z3.Solver()
+        s.set("timeout", FEAS_TIMEOUT_MS)
+        marks = list(self.scope_marks)
+        for k, f in enumerate(self.facts):
+            while marks and marks[0][0] == k:
+                s.push()
+                for x in marks.pop(0)[1]:
+                    s.add(x)
+            s.add(f)
+        for (_k, extra) in marks:
+            s.push()
+            for x in extra:
+                s.add(x)
+        self.solver = s
+
+    def push(self):
+        self.scope_marks.append((len(self.facts), []))
+        self.solver.push()
+
+    def pop(self):
+        self.scope_marks.pop()
+        self.solver.pop()
+
+    def scoped_add(self, t):
+        """a constraint that lives only in the current solver scope (not a recorded fact)"""
+        self.scope_marks[-1][1].append(t)
+        self.solver.add(t)
 
     def feasible(self, cond):
         """may `cond` hold on this path?  unknown counts as feasible"""
@@ -364,6 +403,17 @@ class Engine:
     def nondet(self, n):
         return self.next_decision(n) if n > 1 else 0
 
+    def _safe_check(self, s):
+        """s.check(), with an internal solver failure (not a timeout) counted as `unknown`"""
+        try:
+            return s.check()
+        except z3.Z3Exception as e:
+            if "canceled" in str(e) or "interrupt" in str(e).lower():
+                raise
+            if s is self.solver:
+                self._solver_broken = True
+            return z3.unknown
+
     def prove(self, name, cond, kind="code", detail=""):
         """emit one obligation: `cond` must follow from the facts of this path"""
         if cond is True:
@@ -401,7 +451,7 @@ class Engine:
                 if sm:
                     s0.add(f)
             s0.add(z3.Not(goal))
-            if s0.check() == z3.unsat:
+            if self._safe_check(s0) == z3.unsat:
                 dt = time.time() - t0
                 self.solver_seconds += dt
                 self.obligations.append(Obligation(name, "proved", dt, "z3-small", path=self.path_id,
@@ -432,11 +482,11 @@ class Engine:
                 backend = "z3-ematch"
         if r != z3.unsat:
             s.set("timeout", quick)
-            r = s.check()
+            r = self._safe_check(s)
             backend = "z3"
             if r != z3.sat and r != z3.unsat and self.timeout_ms > Z3_SECOND_MS:
                 s.set("timeout", Z3_SECOND_MS)          # a second, longer z3 attempt before handing over to cvc5
-                r = s.check()
+                r = self._safe_check(s)
             if r != z3.sat and r != z3.unsat and not _os.environ.get("PYVC_NO_SECOND"):
                 st2, be2, dt2 = backends.second_opinion(self.facts, goal, min(self.timeout_ms, CVC5_MS))
                 if st2 == "proved":
@@ -445,7 +495,7 @@ class Engine:
                     _PREFER[name] = be2
         if r != z3.sat and r != z3.unsat and self.timeout_ms > quick:
             s.set("timeout", self.timeout_ms)
-            r = s.check()
+            r = self._safe_check(s)
             backend = "z3"
         model = None
         if r == z3.sat:
@@ -472,8 +522,12 @@ class Engine:
                         candidate = cm
                 except z3.Z3Exception:
                     candidate = None
-        s.pop()
-        s.set("timeout", FEAS_TIMEOUT_MS)
+        if self._solver_broken:
+            self._solver_broken = False
+            self.rebuild_solver()
+        else:
+            s.pop()
+            s.set("timeout", FEAS_TIMEOUT_MS)
         dt = time.time() - t0
         self.solver_seconds += dt
         status = "proved" if r == z3.unsat else ("refuted" if r == z3.sat else "unknown")
